@@ -92,6 +92,7 @@ void harness(void) {
       }
     } else {
       VASSERT(VFD(rx_total, a) == r, "exactly the reported bytes were taken from the queue");
+      if (j >= r) VASSERT(buf[j] == 0, "the caller's buffer is untouched beyond the returned count");
       if (j < r) VASSERT(buf[j] == (j < fill_a ? pre_a[j] : vs.env_data[j - fill_a]), "returned bytes = head of the queue, in order");
       if (j < VFD(rx_len, a) && j + r < VS_CAP) VASSERT(VFD(rx, a)[j] == (j + r < fill_a ? pre_a[j + r] : vs.env_data[j + r - fill_a]), "the rest stays queued, in order");
     }
